@@ -31,6 +31,15 @@ class Adapter(object):
         return round(base * {'x': 0.8, 'y': 1.3}[code], 4)
 
     def fix(self, obj, d):
+        """the name-value pairs are handed over as a dict, a list of pairs, or a ONE-SHOT iterable (zip / iterator): all
+        are 'convertible to a python dictionary', which is what fix_parameters documents"""
+        k = int(digest([getattr(self, 'name', ''), sorted(map(str, d.items()))]), 16) % 4      # (by content: replayable)
+        if k == 1:
+            d = list(d.items())
+        elif k == 2:
+            d = zip(list(d.keys()), list(d.values()))
+        elif k == 3:
+            d = iter(list(d.items()))
         obj.fix_parameters(d)
 
     def names(self, obj):
